@@ -105,12 +105,22 @@ class _NormProblem(Problem):
                     if ok and "\0" not in repl and "\r" not in repl:
                         return w | {"nul"}
                 return frozenset()
-            # w.replace(a, b)
-            if fn.attr == "replace" and len(e.args) == 2 and all(isinstance(a, ast.Constant) and isinstance(a.value, str) for a in e.args):
+            # w.replace(a, b)   (a, b literals or module-level string constants)
+            def _lit(x: ast.AST):
+                if isinstance(x, ast.Constant):
+                    return x.value if isinstance(x.value, str) else None
+                if isinstance(x, (ast.Name, ast.Attribute)) and not (isinstance(x, ast.Name) and self.c.tf.scope(self.f).is_local(x.id)):
+                    try:
+                        v_ = self.c.p.fold(self.f.module, x)
+                    except Exception:          # noqa: BLE001
+                        return None
+                    return v_ if isinstance(v_, str) else None
+                return None
+            if fn.attr == "replace" and len(e.args) == 2 and all(_lit(a) is not None for a in e.args):
                 w = self.facts_of(fn.value, env)
                 if w is None:
                     return None
-                a, b = e.args[0].value, e.args[1].value
+                a, b = _lit(e.args[0]), _lit(e.args[1])
                 if a == "\r\n" and b == "\n":
                     return w | {"crlf"}
                 if a == "\r" and b == "\n":
@@ -128,6 +138,34 @@ class _NormProblem(Problem):
                     return frozenset()       # "\n".join(<derived>) etc.
             return None
         if isinstance(e, ast.Call):
+            # a helper of the same module applied to the flowing value: the facts of what it returns, with its parameter
+            # starting from the facts of the argument
+            depth = getattr(self, "depth", 0)
+            # (resolved by name: the rule works on an unrolled copy of the function, whose nodes the call graph does not know)
+            h = self.c.p.resolve(self.f.module, e.func) if isinstance(e.func, ast.Name) else None
+            if isinstance(h, Func) and h.module is self.f.module and h is not self.f and h.cls is None and depth < 3 \
+                    and not e.keywords and len(e.args) <= len(h.node.args.args):
+                hentry: dict = {}
+                flowing = False
+                for pn, a_ in zip([a.arg for a in h.node.args.args], e.args):
+                    fx_ = self.facts_of(a_, env) if a_ is not None else None
+                    if fx_ is not None:
+                        hentry[pn] = fx_
+                        flowing = True
+                if flowing:
+                    hp = _NormProblem(self.c, h, "\0no-src")
+                    hp.depth = depth + 1          # type: ignore[attr-defined]
+                    hp.entry_state = lambda he=hentry: dict(he)          # type: ignore[method-assign]
+                    hcfg = self.c.cfg(h)
+                    hres = solve(hcfg, hp, widen_after=10**9)
+                    self.evaluated += hp.evaluated
+                    acc = None
+                    for rn in hcfg.nodes:
+                        if rn.kind == "stmt" and isinstance(rn.ast, ast.Return) and hres.get(rn.id) is not None:
+                            fx_ = hp.facts_of(rn.ast.value, hres[rn.id]) if rn.ast.value is not None else None
+                            fx_ = frozenset() if fx_ is None else fx_
+                            acc = fx_ if acc is None else acc & fx_
+                    return acc if acc is not None else frozenset()
             for a in list(e.args):
                 if self.facts_of(a, env) is not None:
                     return frozenset()
